@@ -15,7 +15,9 @@ VERIF = G.VERIF
 CACHE = os.path.join(VERIF, '.cache')
 GEN = os.path.join(VERIF, 'gen')
 
-HEADER = '#![allow(unused)]\nuse vstd::prelude::*;\nuse std::collections::HashMap;\nuse std::collections::HashSet;\nverus! {\n'
+STD_EXTRA = open(os.path.join(os.path.dirname(os.path.dirname(os.path.abspath(__file__))), 'spec', 'std_extra.vrs')).read().replace('\n', ' ')
+# (kept on ONE line so that line numbers of the unit text do not depend on it)
+HEADER = '#![allow(unused)]\nuse vstd::prelude::*;\nuse std::collections::HashMap;\nuse std::collections::HashSet;\nverus! { ' + STD_EXTRA + '\n'
 FOOTER = '\n} // verus!\nfn main() {}\n'
 
 TOOL_LIMIT_PATTERNS = [
@@ -54,7 +56,10 @@ def run_unit(unit, crate, repo, jobs=8, rlimit=None):
     text = HEADER + g.text() + FOOTER
     off = HEADER.count('\n')
     os.makedirs(GEN, exist_ok=True)
-    path = os.path.join(GEN, unit + '.rs')
+    # runs against a scratch copy of the repository get their own directory, so that they cannot race with a run against /repo
+    gdir = GEN if os.path.realpath(repo) == '/repo' else os.path.join(GEN, f'scratch-{os.getpid()}')
+    os.makedirs(gdir, exist_ok=True)
+    path = os.path.join(gdir, unit + '.rs')
     open(path, 'w').write(text)
     sha = hashlib.sha256((text + verus_version()).encode()).hexdigest()
     cdir = os.path.join(CACHE, 'verus')
@@ -68,14 +73,14 @@ def run_unit(unit, crate, repo, jobs=8, rlimit=None):
         except (OSError, ValueError):
             raw = None
     if raw is None:
-        logdir = os.path.join(GEN, f'log-{unit}-{os.getpid()}')
+        logdir = os.path.join(gdir, f'log-{unit}-{os.getpid()}')
         shutil.rmtree(logdir, ignore_errors=True)
         cmd = ['verus', path, '--output-json', '--time-expanded', '--multiple-errors', '30', '--error-format=json',
                '--triggers-mode', 'silent', '--num-threads', str(jobs), '--log-all', '--log-dir', logdir]
         if rlimit:
             cmd += ['--rlimit', str(rlimit)]
         t0 = time.time()
-        p = subprocess.run(cmd, capture_output=True, text=True, cwd=GEN)
+        p = subprocess.run(cmd, capture_output=True, text=True, cwd=gdir)
         wall = time.time() - t0
         per = count_obligations(os.path.join(logdir, 'root.air'))
         shutil.rmtree(logdir, ignore_errors=True)
@@ -97,7 +102,7 @@ def run_unit(unit, crate, repo, jobs=8, rlimit=None):
 def interpret(unit, g, raw, off, path):
     fn_of_line = G.line_fn_map(g)
     res = {'unit': unit, 'gen_path': path, 'wall_s': raw['wall_s'], 'cache_hit': raw['cache_hit'], 'cmd': raw['cmd'],
-           'lost_anchors': g.lost, 'rule_counts': g.rule_counts, 'functions': g.functions, 'failures': [], 'tool_errors': [],
+           'lost_anchors': g.lost, 'rule_counts': g.rule_counts, 'functions': g.functions, 'stubs': list(getattr(g, 'stubs', [])), 'failures': [], 'tool_errors': [],
            'expect_fail': sorted(g.expect_fail), 'expect_fail_ok': True}
     try:
         out = json.loads(raw['stdout']) if raw['stdout'].strip().startswith('{') else None
